@@ -196,6 +196,30 @@ class StubEngine:
         return p_list, bl, hl, tl
 
 
+
+def _make_extractor(o, engine):
+    """LayoutExtractor through its REAL constructor and the documented configuration keys (so that the check does not depend on
+    the names of its attributes); only the model-loading engine class and the worker pool are replaced while it runs"""
+    import configparser
+    from pero_ocr.document_ocr import page_parser as pp
+    cfg = configparser.ConfigParser()
+    cfg["L"] = {"METHOD": "LAYOUT_CNN", "MODEL_PATH": "none", "DETECT_REGIONS": "yes" if o["dr"] else "no",
+                "DETECT_LINES": "yes" if o["dl"] else "no", "MERGE_LINES": "yes" if o["merge"] else "no",
+                "MULTI_ORIENTATION": "yes" if o["multi"] else "no", "DETECT_STRAIGHT_LINES_IN_REGIONS": "no",
+                "ADJUST_HEIGHTS": "no", "ADJUST_BASELINES": "no", "USE_CPU": "yes", "DOWNSAMPLE": "4",
+                "DETECTION_THRESHOLD": "0.2", "MAX_MEGAPIXELS": "5"}
+
+    class _NoPool:
+        def __init__(self, *a, **k):
+            pass
+
+    saved = pp.LayoutEngine, pp.Pool
+    pp.LayoutEngine, pp.Pool = (lambda *a, **k: engine), _NoPool
+    try:
+        return pp.LayoutExtractor(cfg["L"], None, config_path="")
+    finally:
+        pp.LayoutEngine, pp.Pool = saved
+
 def run_extract(case):
     """one real call of LayoutExtractor.process_page with a stub detector; case = {"regs", "lines", "npts", "opts"}"""
     from pero_ocr.document_ocr.page_parser import LayoutExtractor
@@ -216,11 +240,7 @@ def run_extract(case):
             helpers.assign_lines_to_regions(bl, hl, tl, page.regions)          # the page was processed once before
             supplied = list(page.regions)                                      # (kept alive: identity is used below)
             shape_of = {id(r0): n for r0, n in zip(supplied, case["regs"])}
-            le = LayoutExtractor.__new__(LayoutExtractor)
-            le.detect_regions, le.detect_lines = bool(o["dr"]), bool(o["dl"])
-            le.merge_lines, le.multi_orientation = bool(o["merge"]), bool(o["multi"])
-            le.detect_straight_lines_in_regions = le.adjust_heights = le.adjust_baselines = False
-            le.engine = StubEngine(lib, case["regs"], case["lines"], case["npts"])
+            le = _make_extractor(o, StubEngine(lib, case["regs"], case["lines"], case["npts"]))
             random.seed(case.get("seed", 0))
             np.random.seed(case.get("seed", 0))
             res = le.process_page(np.zeros((2 * _GRID_B[1], 2 * _GRID_B[0], 3), dtype=np.uint8), page)
